@@ -104,12 +104,18 @@ inductive WErr where
   | size4         -- protocol version 0 and body length not a multiple of 4
   deriving DecidableEq, Repr
 
+/-- the two length checks at the top of `WritePacketHeaderUnlocked` -/
+def checkBodyLen (m : Mode) (l : Nat) : Option WErr :=
+  if l > maxPacketLen - packetOverhead then some .tooLarge
+  else if m.proto = 0 ∧ l % 4 ≠ 0 then some .size4
+  else none
+
 /-- `WritePacketNoFlushUnlocked` (= header, body, trailer). `WritePacket2` and the Header/Body/Trailer triple
 write the same bytes for the concatenated body. -/
 def writeNoFlush (e : Env) (w : WState) (tip : Nat) (body : Bytes) : Except WErr WState :=
-  if body.length > maxPacketLen - packetOverhead then .error .tooLarge
-  else if w.mode.proto = 0 ∧ body.length % 4 ≠ 0 then .error .size4
-  else
+  match checkBodyLen w.mode body.length with
+  | some er => .error er
+  | none =>
     let h := header w.n tip body.length
     .ok { w with n := w.n + 1, out := w.out ++ (w.pending ++ h ++ body),
                  pending := le32 (e.crc w.mode (h ++ body)) ++ zeros (alignOf w.mode body.length) }
